@@ -37,6 +37,71 @@ pub unsafe extern "C" fn getrandom(buf: *mut libc::c_void, len: usize, _flags: u
 }
 
 static ITER: AtomicU64 = AtomicU64::new(0);
+/// harness-level event log of the current execution (printed with a failure when LOOMDBG is set)
+static EVLOG: std::sync::Mutex<Vec<String>> = std::sync::Mutex::new(Vec::new());
+fn ev(s: &str) {
+	if let Ok(mut l) = EVLOG.lock() {
+		l.push(s.to_string());
+	}
+}
+/// failures of a listed known-finding class met during the exploration (the exploration goes on past them; the parent
+/// reports each as KNOWN-FINDING if known_findings.jsonl lists it, as VIOLATION otherwise)
+static TOLERATED: std::sync::Mutex<Vec<String>> = std::sync::Mutex::new(Vec::new());
+fn tolerate(rendering: String) {
+	// one example per class (the text before the event log)
+	let class = rendering.split('[').next().unwrap_or("").to_string();
+	let mut t = TOLERATED.lock().unwrap();
+	if !t.iter().any(|x| x.starts_with(&class)) {
+		t.push(rendering);
+	}
+}
+fn ev_pos(name: &str) -> Option<usize> {
+	EVLOG.lock().ok()?.iter().position(|e| e == name)
+}
+/// C11 known class F-C11-deferral-check-then-act: a process_commits call that began before the reader locked K1 was
+/// still running when the lock was taken (its decision not to postpone the dereference predates the lock).
+fn c11_race_window() -> bool {
+	let l = match EVLOG.lock() {
+		Ok(l) => l.clone(),
+		Err(_) => return false,
+	};
+	let locked = match l.iter().position(|e| e == "R:locked") {
+		Some(i) => i,
+		None => return false,
+	};
+	let mut open: Option<usize> = None;
+	for (i, e) in l.iter().enumerate() {
+		if e == "pipe:P-start" {
+			open = Some(i);
+		} else if e == "pipe:P" {
+			if let Some(st) = open {
+				if st < locked && i > locked {
+					return true
+				}
+			}
+			open = None;
+		}
+	}
+	// a call still running
+	matches!(open, Some(st) if st < locked)
+}
+/// C11 known class F-C11-used-trees-computed-before-queueing: the pruner's dereference commit was queued while the
+/// reader's InsertTree commit call was in progress (the insertion looked for pending dereferences of locked trees before
+/// the dereference was registered, but was queued behind it).
+fn c11_commit_overlap() -> bool {
+	let l = match EVLOG.lock() {
+		Ok(l) => l.clone(),
+		Err(_) => return false,
+	};
+	let pos = |n: &str| l.iter().position(|e| e == n);
+	match (pos("R:commit-K2-start"), pos("R:committed-K2"), pos("P:commit-start"), pos("P:committed-deref-K1")) {
+		(Some(rs), Some(re), Some(ps), Some(pe)) => rs < pe && ps < re && pe < re,
+		_ => false,
+	}
+}
+fn ev_dump() -> String {
+	EVLOG.lock().map(|l| l.join(" | ")).unwrap_or_default()
+}
 static DIRS: AtomicUsize = AtomicUsize::new(0);
 static STAT_DRAINED: AtomicU64 = AtomicU64::new(0);
 static STAT_ENACTED: AtomicU64 = AtomicU64::new(0);
@@ -440,6 +505,98 @@ fn c16_faulted_workers(n: usize, mask: u8, j: i64) -> impl Fn() + Sync + Send + 
 	}
 }
 
+/// uniform column, zero salt: key = hash. The scaled build starts with a 4-bit index (page = top nibble of the key);
+/// all keys of this family share the nibble `c` and differ in the next bit, so one growth (4 -> 5 bits) splits them.
+fn page_key(c: u16, i: u8) -> Vec<u8> {
+	let mut k = vec![0u8; 32];
+	k[0] = ((c as u8) << 4) | ((i & 1) << 3) | ((i >> 1) & 7);
+	k[1] = i >> 4;
+	k[2] = i;
+	for j in 3..32 {
+		k[j] = (j as u8).wrapping_mul(7) ^ i;
+	}
+	k
+}
+
+/// C09 under threads: an index growth is in progress (64 keys of one page still live in the old index, the new
+/// index is current); a reader reads two of those keys while a pipeline thread finishes the migration (reindex
+/// batch, flush, enact, DropTable of the old index, cleanup). Every read must return the key's value.
+fn c09_growth_under_reader(two_readers: bool) -> impl Fn() + Sync + Send + 'static {
+	move || {
+		let t_start = Instant::now();
+		ITER.fetch_add(1, Ordering::SeqCst);
+		let dir = fresh_dir();
+		parity_db::verif::set_external_workers(true);
+		let col = ColumnOptions { uniform: true, ..Default::default() };
+		let mut opts = options(&dir, vec![col], false);
+		opts.salt = Some([0; 32]);
+		// single-threaded set-up without the shadow accesses (H8): 64 stores into one index page by one thread trip
+		// an assertion inside loom's store history ("TODO: this sometimes fails" in loom/src/rt/atomic.rs)
+		parity_db::verif::set_touch_enabled(false);
+		let db = Arc::new(Db::open_or_create(&opts).expect("open"));
+		const C: u16 = 0x1;
+		let v = |i: u8| val(8 + (i as usize % 3) * 20, i);
+		db.commit((0..64u8).map(|i| (0u8, page_key(C, i), Some(v(i)))).collect::<Vec<_>>()).unwrap();
+		db.process_commits().unwrap();
+		db.flush_logs().unwrap();
+		db.enact_logs().unwrap();
+		db.clean_logs().unwrap();
+		// the 65th key of the page: growth 16 -> 17 bits; nothing migrated yet
+		db.commit(vec![(0u8, page_key(C, 64), Some(v(64)))]).unwrap();
+		db.process_commits().unwrap();
+		db.flush_logs().unwrap();
+		db.enact_logs().unwrap();
+		db.clean_logs().unwrap();
+		parity_db::verif::set_touch_enabled(true);
+		let files = |d: &std::path::Path| -> Vec<String> {
+			let mut v: Vec<String> = std::fs::read_dir(d).unwrap().filter_map(|e| e.ok()).map(|e| e.file_name().to_string_lossy().into_owned()).filter(|n| n.starts_with("index")).collect();
+			v.sort();
+			v
+		};
+		assert_eq!(files(&dir).len(), 2, "harness: a growth must be in progress (old and new index file): {:?}", files(&dir));
+		if std::env::var("LOOMDBG").is_ok() {
+			eprintln!("setup {:?} {:?}", t_start.elapsed(), files(&dir));
+		}
+		let mut readers = vec![];
+		for r in 0..(if two_readers { 2 } else { 1 }) {
+			let db = db.clone();
+			readers.push(loom::thread::spawn(move || {
+				for i in [3u8 + r as u8 * 40, 64, 17 + r as u8] {
+					assert_eq!(db.get(0, &page_key(C, i)).unwrap(), Some(val(8 + (i as usize % 3) * 20, i)), "get of live key #{} of the growing page while the index migration completes", i);
+				}
+			}));
+		}
+		let pipe = {
+			let db = db.clone();
+			loom::thread::spawn(move || {
+				// (cleanup in every round: with the scaled limit of one dirty log file a second enact would wait for it)
+				for _ in 0..3 {
+					let t0 = Instant::now();
+					db.process_reindex().unwrap();
+					let t1 = t0.elapsed();
+					db.flush_logs().unwrap();
+					db.clean_logs().unwrap();
+					db.enact_logs().unwrap();
+					db.clean_logs().unwrap();
+					if std::env::var("LOOMDBG").is_ok() {
+						eprintln!("round: reindex {:?} rest {:?}", t1, t0.elapsed() - t1);
+					}
+				}
+			})
+		};
+		for r in readers {
+			r.join().unwrap();
+		}
+		pipe.join().unwrap();
+		for i in 0..65u8 {
+			assert_eq!(db.get(0, &page_key(C, i)).unwrap(), Some(v(i)), "key #{} after the migration", i);
+		}
+		assert_eq!(files(&dir).len(), 1, "harness: the migration must be complete after the pipeline thread's rounds: {:?}", files(&dir));
+		let db = Arc::try_unwrap(db).ok().expect("sole owner");
+		drop(db);
+	}
+}
+
 /// C15 throttling: one commit puts the queue over its limit, then `n` more clients commit (all throttled) while
 /// the log worker drains; every commit call must return.
 fn c15_throttled_clients(n: usize, mask: u8) -> impl Fn() + Sync + Send + 'static {
@@ -595,6 +752,7 @@ fn c11_scenario(split_pipeline: bool) -> impl Fn() + Sync + Send + 'static {
 	use parity_db::{NewNode, NodeRef, Operation};
 	move || {
 		ITER.fetch_add(1, Ordering::SeqCst);
+		EVLOG.lock().unwrap().clear();
 		let dir = fresh_dir();
 		parity_db::verif::set_external_workers(true);
 		let tree_col = ColumnOptions { multitree: true, allow_direct_node_access: true, ..Default::default() };
@@ -629,18 +787,31 @@ fn c11_scenario(split_pipeline: bool) -> impl Fn() + Sync + Send + 'static {
 					Some(t) => t,
 					None => return false, // the pruner was faster: nothing to lock
 				};
+				ev("R:got-tree");
 				let g = tree.read();
+				ev("R:locked");
 				let first = walk(&**g);
+				ev(if first.is_some() { "R:walk1-ok" } else { "R:walk1-none" });
 				if first.is_none() {
 					return false
 				}
 				// insert a tree that reuses K1's child while the lock is held
 				let child = g.get_root().unwrap().unwrap().1[0];
+				ev("R:commit-K2-start");
 				db.commit_changes(vec![(0u8, Operation::InsertTree(k2.clone(), NewNode { data: val(6, 10), children: vec![NodeRef::Existing(child)] }))]).unwrap();
+				ev("R:committed-K2");
 				loom::thread::yield_now();
 				let second = walk(&**g);
-				assert_eq!(first, second, "the locked tree changed under its reader");
+				ev("R:walk2");
+				if first != second {
+					if c11_race_window() {
+						tolerate(format!("the locked tree changed under its reader; the process_commits call that dereferenced K1 began before the reader locked K1 and was still running when the lock was taken [{}]", ev_dump()));
+					} else {
+						panic!("the locked tree changed under its reader [{}]: first walk {:?}, second walk {:?}", ev_dump(), first.as_ref().map(|w| w.len()), second.as_ref().map(|w| w.len()));
+					}
+				}
 				drop(g);
+				ev("R:unlocked");
 				true
 			})
 		};
@@ -648,7 +819,9 @@ fn c11_scenario(split_pipeline: bool) -> impl Fn() + Sync + Send + 'static {
 			let (db, k1, b, order) = (db.clone(), k1.clone(), b.clone(), order.clone());
 			loom::thread::spawn(move || {
 				let mut o = order.lock().unwrap();
+				ev("P:commit-start");
 				db.commit_changes(vec![(0u8, Operation::DereferenceTree(k1.clone())), (1u8, Operation::Set(b.clone(), val(20, 1)))]).unwrap();
+				ev("P:committed-deref-K1");
 				o.push(1);
 			})
 		};
@@ -657,6 +830,7 @@ fn c11_scenario(split_pipeline: bool) -> impl Fn() + Sync + Send + 'static {
 			loom::thread::spawn(move || {
 				let mut o = order.lock().unwrap();
 				db.commit_changes(vec![(1u8, Operation::Set(b.clone(), val(21, 2)))]).unwrap();
+				ev("W:committed-b");
 				o.push(2);
 			})
 		};
@@ -665,11 +839,15 @@ fn c11_scenario(split_pipeline: bool) -> impl Fn() + Sync + Send + 'static {
 			let d = db.clone();
 			pipes.push(loom::thread::spawn(move || {
 				for _ in 0..3 {
+					ev("pipe:P-start");
 					d.process_commits().unwrap();
+					ev("pipe:P");
 				}
 				d.flush_logs().unwrap();
+				ev("pipe:F");
 				if !split_pipeline {
 					d.enact_logs().unwrap();
+					ev("pipe:E");
 				}
 			}));
 		}
@@ -677,7 +855,9 @@ fn c11_scenario(split_pipeline: bool) -> impl Fn() + Sync + Send + 'static {
 			let d = db.clone();
 			pipes.push(loom::thread::spawn(move || {
 				d.enact_logs().unwrap();
+				ev("pipe2:E");
 				d.clean_logs().unwrap();
+				ev("pipe2:K");
 			}));
 		}
 		let inserted = reader.join().unwrap();
@@ -699,9 +879,26 @@ fn c11_scenario(split_pipeline: bool) -> impl Fn() + Sync + Send + 'static {
 		if inserted {
 			let t = db.get_tree(0, &k2).unwrap().expect("K2 missing");
 			let g = t.read();
-			let w = walk(&**g).expect("K2 unreadable: a node it shares with K1 was freed");
-			assert_eq!(w.len(), 3, "K2 must have its root, the shared node and that node's leaf");
-			assert_eq!(w[1].0, val(30, 7), "shared node data changed");
+			match walk(&**g) {
+				Some(w) => {
+					assert_eq!(w.len(), 3, "K2 must have its root, the shared node and that node's leaf");
+					assert_eq!(w[1].0, val(30, 7), "shared node data changed");
+				},
+				None => {
+					// known class (F-C11-deferral-check-then-act): one process_commits call began before the reader took
+					// the lock and ended after the reader's insertion - its decision not to postpone the dereference
+					// was taken before the lock existed, its plan was written after the insertion
+					let l = EVLOG.lock().unwrap().clone();
+					let spanning = c11_race_window();
+					if !spanning && c11_commit_overlap() {
+						tolerate(format!("K2 unreadable: a node it shares with K1 was freed; the dereference of K1 was committed while the reader's InsertTree commit call (made under the lock) was in progress and was queued ahead of it [{}]", l.join(" | ")));
+					} else if !spanning {
+						panic!("K2 unreadable: a node it shares with K1 was freed [{}]", l.join(" | "))
+					} else {
+						tolerate(format!("K2 unreadable: a node it shares with K1 was freed; the process_commits call that dereferenced K1 began before the reader locked K1 and was still running when the lock was taken [{}]", l.join(" | ")));
+					}
+				},
+			}
 		}
 		let db = Arc::try_unwrap(db).ok().expect("sole owner");
 		drop(db);
@@ -834,6 +1031,37 @@ fn explore<F: Fn() + Sync + Send + 'static>(name: &str, pb: usize, wall: f64, mo
 	Outcome { name: name.into(), pb, schedules: n, complete, failure, secs: t0.elapsed().as_secs_f64() }
 }
 
+/// In-process variant (no checkpoint file, all schedules on loom's own coroutines of one OS thread): for scenarios
+/// whose executions are long (10^5 lock operations: writing the path to the checkpoint file after every schedule
+/// costs seconds) and whose behaviour does not depend on the iteration order of a std HashMap with more than one
+/// entry (one column, one index table per record), so that the per-thread RandomState counter does not matter.
+fn explore_inproc<F: Fn() + Sync + Send + 'static>(name: &str, pb: usize, wall: f64, model: F) -> Outcome {
+	let t0 = Instant::now();
+	let before = ITER.load(Ordering::SeqCst);
+	let h = std::thread::Builder::new()
+		.stack_size(256 << 20)
+		.spawn(move || {
+			let mut b = loom::model::Builder::new();
+			b.max_branches = 1_000_000;
+			b.preemption_bound = Some(pb);
+			b.max_duration = Some(std::time::Duration::from_secs_f64(wall));
+			b.check(model);
+		})
+		.unwrap();
+	let failure = match h.join() {
+		Ok(()) => None,
+		Err(e) => Some(if let Some(s) = e.downcast_ref::<String>() {
+			s.clone()
+		} else if let Some(s) = e.downcast_ref::<&str>() {
+			s.to_string()
+		} else {
+			"panic".into()
+		}),
+	};
+	let secs = t0.elapsed().as_secs_f64();
+	Outcome { name: name.into(), pb, schedules: ITER.load(Ordering::SeqCst) - before, complete: failure.is_none() && secs < wall, failure, secs }
+}
+
 fn verif_root() -> PathBuf {
 	PathBuf::from(std::env::var("VERIF_ROOT").unwrap_or_else(|_| "/verif".into()))
 }
@@ -882,6 +1110,9 @@ fn run_child(prop: &str, tier: &str, idx: usize) -> Outcome {
 		("C16L", i) if !quick && (36..48).contains(&i) => explore(&format!("backlog-2-files/all-workers/fault-from-op-{}", i - 36), 1, wall, c16_faulted_workers(2, 0b1111, (i - 36) as i64)),
 		("C16L", i) if !quick && (48..84).contains(&i) => explore(&format!("backlog-3-files/commit+cleanup-workers/fault-from-op-{}", i - 48), 2, wall, c16_faulted_workers(3, 0b1100, (i - 48) as i64)),
 		("C16L", i) if !quick && (84..104).contains(&i) => explore(&format!("backlog-4-files/all-workers/fault-from-op-{}", i - 84), 1, wall, c16_faulted_workers(4, 0b1111, (i - 84) as i64)),
+		("C09L", 0) => explore("growth-in-progress/reader+pipeline-thread", 1, wall, c09_growth_under_reader(false)),
+		("C09L", 1) => explore("growth-in-progress/reader+pipeline-thread", 2, wall.min(if quick { 25.0 } else { wall }), c09_growth_under_reader(false)),
+		("C09L", 2) if !quick => explore("growth-in-progress/2-readers+pipeline-thread", 1, wall, c09_growth_under_reader(true)),
 		("C11L", 0) => explore("reader+pruner+writer/one-pipeline-thread", 1, wall, c11_scenario(false)),
 		("C11L", 1) => explore("reader+pruner+writer/one-pipeline-thread", 2, wall, c11_scenario(false)),
 		("C11L", 2) => explore("reader+pruner+writer/split-pipeline", 1, wall, c11_scenario(true)),
@@ -910,10 +1141,12 @@ fn main() {
 	let tier = args.get(2).cloned().unwrap_or_else(|| "quick".into());
 	if args.get(3).map(|s| s.as_str()) == Some("--child") {
 		let idx: usize = args[4].parse().unwrap();
-		std::panic::set_hook(Box::new(|_| {}));
+		if std::env::var("PDBLOOM_PANIC_TRACE").is_err() {
+			std::panic::set_hook(Box::new(|_| {}));
+		}
 		let o = run_child(&prop, &tier, idx);
 		println!("{}", json!({"name": o.name, "pb": o.pb, "schedules": o.schedules, "complete": o.complete, "failure": o.failure, "secs": o.secs,
-			"distinct_traces": STAT_TRACES.load(Ordering::SeqCst), "schedules_in_which_the_fault_was_reached": STAT_FAULT_HIT.load(Ordering::SeqCst), "schedules_in_which_the_later_commit_was_refused": STAT_REFUSED.load(Ordering::SeqCst), "schedules_where_workers_logged_everything_before_join": STAT_DRAINED.load(Ordering::SeqCst), "schedules_where_a_record_was_enacted_by_the_workers": STAT_ENACTED.load(Ordering::SeqCst)}));
+			"tolerated": TOLERATED.lock().map(|t| t.clone()).unwrap_or_default(), "distinct_traces": STAT_TRACES.load(Ordering::SeqCst), "schedules_in_which_the_fault_was_reached": STAT_FAULT_HIT.load(Ordering::SeqCst), "schedules_in_which_the_later_commit_was_refused": STAT_REFUSED.load(Ordering::SeqCst), "schedules_where_workers_logged_everything_before_join": STAT_DRAINED.load(Ordering::SeqCst), "schedules_where_a_record_was_enacted_by_the_workers": STAT_ENACTED.load(Ordering::SeqCst)}));
 		let _ = std::fs::remove_dir_all(scratch());
 		std::process::exit(0);
 	}
@@ -950,12 +1183,14 @@ fn main() {
 		"C11L" => "C11".to_string(),
 		"C12L" => "C12".to_string(),
 		"C16L" => "C16".to_string(),
+		"C09L" => "C09".to_string(),
 		_ => prop.clone(),
 	};
 	let evidence_name = match prop.as_str() {
 		"C11L" => "C11-loom".to_string(),
 		"C12L" => "C12-loom".to_string(),
 		"C16L" => "C16-loom".to_string(),
+		"C09L" => "C09-loom".to_string(),
 		_ => prop.clone(),
 	};
 	let traces_root = PathBuf::from(format!("{}/pdbloom-traces-{}", std::env::var("PDBMC_SCRATCH").unwrap_or_else(|_| "/dev/shm".into()), std::process::id()));
@@ -998,6 +1233,30 @@ fn main() {
 		if !j["complete"].as_bool().unwrap_or(false) && j["failure"].is_null() {
 			exhaustive = false;
 		}
+		for t in j["tolerated"].as_array().cloned().unwrap_or_default() {
+			let rendering = format!("scenario {} preemption bound {}: {}", j["name"].as_str().unwrap(), j["pb"], t.as_str().unwrap_or(""));
+			let k = known.iter().find(|k| {
+				k["property"] == report_prop.as_str() &&
+					k["status"].as_str().map_or(false, |s| s == "open") &&
+					k["signature"].as_array().map_or(false, |a| !a.is_empty() && a.iter().all(|s| rendering.contains(s.as_str().unwrap_or("\u{0}"))))
+			});
+			if let Some(k) = k {
+				let l = format!("KNOWN-FINDING: property={} {} [{}]", report_prop, k["what"].as_str().unwrap_or(""), k["id"].as_str().unwrap_or(""));
+				if !known_lines.contains(&l) {
+					println!("{}", l);
+					known_lines.push(l);
+				}
+			} else {
+				violations += 1;
+				let dir = out_root().join("replays");
+				let _ = std::fs::create_dir_all(&dir);
+				let path = dir.join(format!("{}-loom-{}-pb{}-tolerated.json", report_prop, j["name"].as_str().unwrap().replace('/', "_"), j["pb"]));
+				std::fs::write(&path, serde_json::to_string_pretty(&json!({"property": report_prop, "engine": "loommc", "scenario": j["name"], "preemption_bound": j["pb"], "message": t, "check": prop, "tier": tier, "child_index": idx})).unwrap()).unwrap();
+				println!("VIOLATION property={} replay={}", report_prop, path.display());
+				println!("  {}", rendering);
+				break
+			}
+		}
 		if let Some(f) = j["failure"].as_str() {
 			let rendering = format!("scenario {} preemption bound {}: after {} schedules: {}", j["name"].as_str().unwrap(), j["pb"], j["schedules"], f);
 			let k = known.iter().find(|k| {
@@ -1026,7 +1285,7 @@ fn main() {
 	// C12L: every distinct I/O trace is judged by the sequential engine (power loss at every operation boundary)
 	let mut trace_judgement = json!(null);
 	if prop == "C12L" {
-		let pdbmc = verif_root().join(".target/std/release/pdbmc");
+		let pdbmc = verif_root().join(".target/std-small/release/pdbmc");
 		let mut sum = json!({"traces": 0u64, "operations_in_threaded_phase": 0u64, "crash_points": 0u64, "images": 0u64, "distinct_images_recovered": 0u64, "power_loss_images": 0u64, "max_dirty_pages": 0u64, "subsets_capped": 0u64, "recovered_to": {}});
 		if let Ok(rd) = std::fs::read_dir(&traces_root) {
 			let mut dirs: Vec<PathBuf> = rd.filter_map(|e| e.ok()).map(|e| e.path()).collect();
